@@ -1,15 +1,15 @@
 SPECIFICATION FairSpec
 CONSTANTS
- Addrs = {1, 2}
+ Addrs = {1}
  DefaultRetry = 5
  Slack = 0
  FreeMax = 10
  Dev = {"badevent", "status", "readerr", "partial", "dedup"}
  TrimOn = "match"
  Defect = "none"
- MaxFeeds = 2
+ MaxFeeds = 1
  MaxDials = 2
- MaxTime = 24
+ MaxTime = 21
  MaxSubs = 1
  FeedSet <- FramesLife
  DialSet <- DialAll
@@ -18,5 +18,5 @@ CONSTANTS
  Spe = 4
  Gen <- Gen0
  AKinds <- AllOK
-PROPERTIES Reconnects
+PROPERTIES ReconnectsAsCoded
 CHECK_DEADLOCK FALSE
